@@ -54,11 +54,15 @@ def ubTermVar (h : Header) : Nat := siteVal (site_NLReader_ReadLinearExpr_i_1_ub
 /-- number of linear terms: `ReadUInt(1, header_.num_vars + 1u)` -/
 def lbTerms : Nat := siteVal bound_NLReader_ReadLinearExpr_2_lb
 def ubTerms (h : Header) : Nat := siteVal (site_NLReader_ReadLinearExpr_2_ub (hdrOf h))
+/-- `num_items()` of the item handler `NLReader::Read` instantiates for a segment letter (`G J b r x d`) -/
+def itemsSeg (h : Header) (letter : Nat) : Nat := siteVal (itemsOfSegment (hdrOf h) letter)
+/-- `num_items()` of the item handler `ReadSuffix` is instantiated with for a suffix kind -/
+def itemsSuffix (h : Header) (kind : Nat) : Nat := siteVal (itemsOfSuffixKind (hdrOf h) kind)
 end Site
 
 -- outside these definitions the site bounds are not unfolded by unification (their content is used only through the lemmas
 -- above and the `C02_gen_site_*` theorems); they still compute in the driver
 attribute [irreducible] Site.ubC Site.ubL Site.ubO Site.lbV Site.ubV Site.ubF Site.ubRef Site.ubCall Site.ubTermVar
-  Site.lbTerms Site.ubTerms
+  Site.lbTerms Site.ubTerms Site.itemsSeg Site.itemsSuffix
 
 end MpVerif.C02
